@@ -67,6 +67,12 @@ Inductive case :=
 | ParamsCase (cfgIdle peerIdle peerAdv kap obsIdle obsKai : Z)
 | CloseCase (client sentFirstPacket : bool) (reqs : list (Z * Z * bool))
             (obsCause obsApi : Z * Z) (sentClose blackhole : bool) (peer : option (Z * Z)) (routing : Z)
+| RaceCase (client sentFirstPacket : bool) (reqs : list (Z * Z * bool))
+           (obsCause obsApi : Z * Z) (sentClose blackhole : bool) (peer : option (Z * Z)) (routing : Z)
+  (* close requests issued concurrently at one instant (accessor, Conn.CloseWithError, Transport.Close, the idle timer);
+     listed with the one whose cause was recorded first *)
+| HsCloseCase (isApp : bool) (code : Z) (peerSaw : Z * Z)
+  (* the server closes while the handshake is in progress; what the dialing client records *)
 | ClosedConnCase (start : Z) (replies : list bool)
 | FanoutCase (streams : list (Z * bool * Z * Z * Z * bool * Z * Z)) (maps : list Z)
   (* unit-level fan-out over stream states: per stream (receive state, Read parked before the close, its result,
@@ -136,6 +142,11 @@ Definition model_obs (c : case) : obs :=
                (match a with ActSendClose isApp code => Some (if isApp then 3 else 4, code) | _ => None end)
                (routing_after a)
     end
+  | RaceCase _ _ _ _ _ _ _ _ _ => ClosedConnObs []   (* replayed as the CloseCase with the winner first, see check_case *)
+  | HsCloseCase isApp code _ =>
+    (* the client has not completed the handshake: it reads the Initial / Handshake copy of the frame *)
+    let '(a, c0) := frame_at LInitial (isApp, code) in
+    CloseObs (0, 0) (if a then 3 else 4, c0) false None 0
   | ClosedConnCase start replies => ClosedConnObs (closed_replies start (List.length replies))
   | FanoutCase streams maps =>
     let e := EApp true 23 in
@@ -182,7 +193,14 @@ Fixpoint bools_eqb (a b : list bool) : bool :=
   | _, _ => false
   end.
 
-Definition check_case (c : case) : bool :=
+Definition as_close_case (c : case) : case :=
+  match c with
+  | RaceCase a b c0 d e f g h i => CloseCase a b c0 d e f g h i
+  | x => x
+  end.
+
+Definition check_case (c0 : case) : bool :=
+  let c := as_close_case c0 in
   match c, model_obs c with
   | SnapCase s is ni nk timer, SnapObs ht is' ni' nk' d =>
     (sn_hsTimeout s =? ht) && (is =? is') && (ni =? ni') && (nk =? nk') &&
@@ -215,6 +233,7 @@ Definition check_case (c : case) : bool :=
     (lr =? sn_lastRecv post) && (fa =? sn_firstAE post) && Bool.eqb ks (sn_kaSent post) && Bool.eqb hs (sn_hs post) &&
     (idle =? sn_idle post) && (kai =? sn_kai post) && (cl =? closed)
   | EarlyExitCase r c, EarlyExitObs r' c' => (r =? r') && match c with Some b => Bool.eqb b c' | None => true end
+  | HsCloseCase _ _ saw, CloseObs _ want _ _ _ => pair_eqb saw want
   | ClosedConnCase _ r, ClosedConnObs r' => bools_eqb r r'
   | _, _ => false
   end.
